@@ -157,4 +157,6 @@ def run(ctx):
     rep.floor('R13.2', 'derived visit_seq bodies checked', len(vs), 14)
     rep.floor('R13.2', 'Serialize impls matched', n_types, 16)
     rep.floor('R13.1', 'leaves surviving the round trip', n_leaves, 30 * len(ctx.suite_names))
+    from rules import profile
+    profile.check(ctx, rep, 'R13.P', [DECODERS[n] + '::deserialize' for n in STATE_TYPES] + [DECODERS[n] + '::serialize' for n in STATE_TYPES])
     return rep
